@@ -186,7 +186,7 @@ theorem firstUses_names (all : List Name) : ∀ (l : List Stmt) (seen : List Nam
     have : x ∈ List.map ((fun p : Nat × Name => p.2) ∘ fun x => (k, x)) (newIns all seen st.ins)
         ↔ x ∈ newIns all seen st.ins := by simp [Function.comp_def]
     rw [this, mem_newIns]
-    simp only [List.mem_append, List.mem_reverse, mem_newIns]
+    simp only [List.mem_reverse, mem_newIns]
     grind
 
 theorem firstUses_nodup (all : List Name) : ∀ (l : List Stmt) (seen : List Name) (k : Nat),
